@@ -146,8 +146,19 @@ where
     }
 }
 
+fn iceoryx2_pal_concurrency_sync_kind_store() -> vlib::sched::Kind {
+    vlib::sched::Kind::Store
+}
+
 fn filter() -> sched::SiteFilter {
-    Arc::new(|s: &sched::Site| s.width == 1 && s.file.ends_with("zero_copy_connection/common.rs"))
+    // loads and CASes of the state byte (reserve_port, remove_state, is_connected); a plain store of
+    // the state byte only happens inside the storage initializer, i.e. under the storage's lock,
+    // where the scheduler must not preempt
+    Arc::new(|s: &sched::Site| {
+        s.width == 1
+            && s.file.ends_with("zero_copy_connection/common.rs")
+            && s.kind != iceoryx2_pal_concurrency_sync_kind_store()
+    })
 }
 
 fn run<C: ZeroCopyConnection + 'static>(args: &Args, storage: &str)
@@ -166,6 +177,7 @@ where
     let mut anomalies = 0u64;
     let mut exhausted = false;
     let seq_obs = prog.len() == 1;
+    let atoms = args.flag("atoms");
 
     let mut one = |strat: &mut dyn Strategy, out: &mut TraceWriter| {
         let n = NAME_COUNTER.fetch_add(1, Ordering::SeqCst);
@@ -185,15 +197,20 @@ where
         let cfg = RunConfig {
             ranges: vec![],
             max_steps: 3000,
-            record_atoms: false,
+            record_atoms: atoms,
             yield_after: true,
             site_filter: Some(filter()),
         };
         let res = sched::run(cfg, bodies, strat);
         out.emit(&reset);
         for e in &res.log {
-            if let LogEntry::Api { ev, .. } = e {
-                out.emit(ev)
+            match e {
+                LogEntry::Api { ev, .. } => out.emit(ev),
+                LogEntry::Atom { tid, site, rd, wr, ok } => {
+                    if atoms {
+                        out.emit(&json!({"k":"atom","t":tid,"op":site.kind,"ord":site.ord,"rd":rd,"wr":wr,"ok":ok}));
+                    }
+                }
             }
         }
         let completed = res.outcome == Outcome::Completed && res.panics.is_empty();
